@@ -77,6 +77,7 @@ type Contract struct {
 	Line         int
 	Bounded      int // >0: loops unrolled this many times instead of invariants (bounded stand-in)
 	NoPanic      bool
+	ChainEnsures bool // each ensures clause is proved assuming the clauses before it (sequential asserts at exit)
 	Notes        []string
 	Asserts      map[string][]*Clause // "call:<callee>#k" -> assumptions at call sites (assume-contract)
 }
@@ -129,6 +130,7 @@ type PureFn struct {
 	Params []Param
 	Ret    *TypeExpr
 	Body   *Expr // nil: uninterpreted
+	Reads  []string // uninterpreted function of these heaps too (state-reading callback results)
 	Src    string
 }
 
@@ -154,6 +156,7 @@ type ContractDB struct {
 	Funcs     map[string]*Contract
 	Callbacks map[string]*Contract // "field:pkg.T.f" or "type:pkg.T"
 	Pures     map[string]*PureFn
+	StateHeaps map[string]bool // heaps read by state-reading ufuns; bound by a 'state' quantifier binder
 	Axioms    map[string]*Axiom
 	Ghosts    map[string]*GhostField // "pkg.T.f"
 	Order     []string
@@ -161,14 +164,14 @@ type ContractDB struct {
 }
 
 func NewContractDB() *ContractDB {
-	return &ContractDB{Funcs: map[string]*Contract{}, Callbacks: map[string]*Contract{}, Pures: map[string]*PureFn{},
+	return &ContractDB{Funcs: map[string]*Contract{}, Callbacks: map[string]*Contract{}, Pures: map[string]*PureFn{}, StateHeaps: map[string]bool{},
 		Axioms: map[string]*Axiom{}, Ghosts: map[string]*GhostField{}, Steps: map[string]*StepSpec{}}
 }
 
 var clauseKeywords = map[string]bool{"func": true, "props": true, "trusted": true, "inline": true, "noinline": true, "pure-call": true,
 	"requires": true, "ensures": true, "modifies": true, "assume": true, "call": true, "step-op": true, "drains": true, "modifies-args": true, "mode": true, "atomic": true, "shared": true, "inv": true, "rely": true, "lock": true, "use!": true, "at-call": true, "recv": true, "send": true, "loop": true, "ghost-exit": true, "ghost-pre": true, "use": true, "ghost": true,
 	"pure": true, "ufun": true, "axiom": true, "lemma": true, "callback-field": true, "callback-type": true,
-	"bounded": true, "nopanic": true, "note": true, "end": true, "params": true, "results": true}
+	"bounded": true, "nopanic": true, "chain-ensures": true, "note": true, "end": true, "params": true, "results": true}
 
 var labelRe = regexp.MustCompile(`^\[([A-Za-z0-9_\-\.]+)\]\s*`)
 
@@ -489,6 +492,13 @@ func (db *ContractDB) LoadFile(path string, raw bool) error {
 			}
 			pf := &PureFn{Name: name, Pkg: pkg, Params: ps, Src: l.rest}
 			retS := rest
+			if i := strings.Index(rest, " reads "); i >= 0 && l.kw == "ufun" {
+				retS = strings.TrimSpace(rest[:i])
+				for _, h := range strings.Fields(strings.ReplaceAll(rest[i+7:], ",", " ")) {
+					pf.Reads = append(pf.Reads, h)
+					db.StateHeaps[h] = true
+				}
+			}
 			if i := strings.Index(rest, "="); i >= 0 && l.kw == "pure" {
 				retS = strings.TrimSpace(rest[:i])
 				body, err := ParseSpec(rest[i+1:])
@@ -598,6 +608,8 @@ func (db *ContractDB) LoadFile(path string, raw bool) error {
 				cur.Pure = true
 			case "nopanic":
 				cur.NoPanic = true
+			case "chain-ensures":
+				cur.ChainEnsures = true
 			case "note":
 				cur.Notes = append(cur.Notes, l.rest)
 			case "bounded":
